@@ -35,6 +35,14 @@ type Tree struct {
 	main      []*Node   // the main chain, main[i] at height i+1
 	reorgLeaf *Node     // -prop C19 scenario: tip of a valid branch longer than the main chain
 	trap      *trapInfo // two-checkpoints-in-one-message scenario
+	restart   *restartInfo
+}
+
+// restartInfo: three valid branches forking off the main chain at base, d >= 2
+// blocks below its tip, under no-retargeting (every header carries the same
+// work): tie has d headers, light d-1, heavy d+1.
+type restartInfo struct {
+	base, tie, light, heavy *Node
 }
 
 // trapInfo describes a tree with two checkpoints (heights c1 < c2, both on
